@@ -192,9 +192,24 @@ def _run_task(modname, task):
     mod = importlib.import_module(modname)
     try:
         p = mod.work(task)
-    except Exception:               # noqa: BLE001
+    except Exception as e:          # noqa: BLE001
         p = Partial()
-        p.errors.append("task %r: %s" % (str(task)[:200], traceback.format_exc()[-1500:]))
+        # Where did it come from?  All workloads feed valid inputs outside the explicitly guarded negative
+        # cases, so an exception that escapes from *library* code is an observation about the library
+        # (crash monitor); an exception raised in harness code is a harness problem (inconclusive).
+        tb = traceback.extract_tb(e.__traceback__)
+        lib = os.path.join(env.SRC, "htstabilizer") + os.sep
+        if tb and tb[-1].filename.startswith(lib):
+            fr = tb[-1]
+            p.evals += 1
+            p.violate("library-raised-unexpectedly %s in %s:%s" % (type(e).__name__, os.path.basename(fr.filename), fr.name),
+                      "while the workload of %s was driving valid inputs, library code raised %s: %s (at %s:%d in %s); task %s"
+                      % (getattr(mod, "PID", "?"), type(e).__name__, str(e)[:200], os.path.basename(fr.filename), fr.lineno, fr.name, str(task)[:160]),
+                      {"kind": "crash", "task": repr(task)[:2000]})
+            p.distinct.add(h64(("crash", type(e).__name__, fr.name)))
+            p.distinct.add(h64(("crash2", fr.lineno)))
+        else:
+            p.errors.append("task %r: %s" % (str(task)[:200], traceback.format_exc()[-1500:]))
     p.lines = coverage_take()
     return p
 
@@ -343,8 +358,14 @@ def run_check(pid, tier, seed):
                 if total.errors:
                     raise Inconclusive("harness error: " + total.errors[0])
         if hasattr(mod, "finalize"):
-            mod.finalize(total, tier, seed)
-        if total.errors:
+            try:
+                mod.finalize(total, tier, seed)
+            except Inconclusive as e:
+                # a reach floor that is not met does not un-observe a violation that was observed
+                if not total.violations:
+                    raise
+                total.counters["reach floor not met (run already has violations): %s" % str(e)[:120]] += 1
+        if total.errors and not total.violations:
             raise Inconclusive(total.errors[0])
     except Inconclusive as e:
         print("INCONCLUSIVE property=%s reason=%s" % (pid, str(e).replace("\n", " | ")[:1500]))
